@@ -328,10 +328,10 @@ func (n *RefNet) CompareGraphView(net *network.Network) (string, string) {
 // FFInfo describes a feed-forward network for the C12 / C14 oracles.
 type FFInfo struct {
 	Acyclic        bool
-	AllReachable   bool    // every neuron is reachable from a sensor
-	Order          []int   // topological order of node ids
-	LongestFromSen int     // longest sensor -> output path (links)
-	LongestToOut   int     // longest path ending in an output, from any node
+	AllReachable   bool  // every neuron is reachable from a sensor
+	Order          []int // topological order of node ids
+	LongestFromSen int   // longest sensor -> output path (links)
+	LongestToOut   int   // longest path ending in an output, from any node
 	HasHidden      bool
 	in             map[int][]RefEdge
 }
